@@ -54,29 +54,31 @@ type Exec struct {
 	classTy     map[string]types.Type
 	building    bool
 
-	entry         *State // snapshot at function entry (for old())
-	entryAlloc    *T
-	params        map[string]Val // entry values of parameters (name and name0)
-	mods          []modLoc       // evaluated modifies clause of the function under verification
-	oblCount      map[string]int
-	retCount      int
-	callCount     map[string]int
-	depth         int
-	steps         int
-	MaxSteps      int
-	Notes         []string
-	coro          *coroSched
-	pendingBinds  []Val
-	Driver        string
-	Config        map[string]int64
-	keepRets      bool
-	lastRets      []retRec
-	SplitIdx      int
-	FoldQueries   int
-	LogCalls      bool
-	Calls         []CallRec
-	freshSeq      int
-	TrivialByKind map[string]int
+	entry          *State // snapshot at function entry (for old())
+	entryAlloc     *T
+	params         map[string]Val // entry values of parameters (name and name0)
+	mods           []modLoc       // evaluated modifies clause of the function under verification
+	oblCount       map[string]int
+	retCount       int
+	callCount      map[string]int
+	depth          int
+	steps          int
+	MaxSteps       int
+	Notes          []string
+	coro           *coroSched
+	pendingBinds   []Val
+	Driver         string
+	SplitLoopExits bool
+	bounds         []*loopBound
+	Config         map[string]int64
+	keepRets       bool
+	lastRets       []retRec
+	SplitIdx       int
+	FoldQueries    int
+	LogCalls       bool
+	Calls          []CallRec
+	freshSeq       int
+	TrivialByKind  map[string]int
 }
 
 func NewExec(p *Program, fn *ssa.Function, mode Mode) *Exec {
@@ -407,6 +409,25 @@ func (x *Exec) runRegion(st *State, b, from, stop *ssa.BasicBlock, rets *[]retRe
 			}
 			return st
 		}
+		// boundary of the loop iteration being unwound (see runLoop)
+		if lb := x.curBound(); lb != nil && lb.fn == fn && lb.frames == len(st.Frames) {
+			if (b == lb.head && !lb.first) || !lb.blocks[b] {
+				lb.arrivals = append(lb.arrivals, loopArrival{st, from, b})
+				return nil
+			}
+			lb.first = false
+		}
+		// loops that are unwound (no invariant): iterate with state merging at the header
+		if l := info.headers[b]; l != nil && x.loopCutFor(fn, b) == nil {
+			if lb := x.curBound(); lb == nil || lb.head != b || lb.frames != len(st.Frames) {
+				nst, next := x.runLoop(st, fn, l, from, stop, rets, depth)
+				if nst == nil {
+					return nil
+				}
+				st, b, from = nst, next, nil
+				continue
+			}
+		}
 		// loop cut points
 		if lc := x.loopCutFor(fn, b); lc != nil && len(st.Frames) == depth {
 			if ent, open := st.Open[b]; open {
@@ -484,7 +505,8 @@ func (x *Exec) runRegion(st *State, b, from, stop *ssa.BasicBlock, rets *[]retRe
 							from, b = b, b.Succs[1]
 							continue2 = true
 						default:
-							x.fail("%s: loop %d has no invariant and its exit condition is not determined by the inputs (cannot unwind)", fnName(fn), l.N)
+							// genuinely data-dependent exit: both arms are followed (the exit arm
+							// leaves the iteration, the other one continues; runLoop bounds the count)
 						}
 						if continue2 {
 							continue2 = false
@@ -500,6 +522,11 @@ func (x *Exec) runRegion(st *State, b, from, stop *ssa.BasicBlock, rets *[]retRe
 					}
 				}
 				join := info.ipdom[b]
+				if lb := x.curBound(); lb != nil && lb.fn == fn && lb.frames == len(st.Frames) {
+					if join == nil || !lb.blocks[join] || join == lb.head {
+						join = nil // run both arms to the iteration boundary
+					}
+				}
 				sT := st.clone()
 				sT.PC = term.And(st.PC, c)
 				sT.Died = false
@@ -1129,4 +1156,165 @@ func addrToPtr(a VAddr) (VT, bool) {
 		return VT{a.Ref, types.NewPointer(a.Ty)}, true
 	}
 	return VT{}, false
+}
+
+// ---------------------------------------------------------------- unwinding loops with state merging at the header
+
+type loopArrival struct {
+	st     *State
+	from   *ssa.BasicBlock
+	target *ssa.BasicBlock
+}
+
+type loopBound struct {
+	fn       *ssa.Function
+	head     *ssa.BasicBlock
+	blocks   map[*ssa.BasicBlock]bool
+	frames   int
+	first    bool
+	arrivals []loopArrival
+}
+
+func (x *Exec) curBound() *loopBound {
+	if len(x.bounds) == 0 {
+		return nil
+	}
+	return x.bounds[len(x.bounds)-1]
+}
+
+// runLoop unwinds loop l iteration by iteration. All paths that reach the back edge in one
+// iteration are merged into one state for the next iteration; paths that leave the loop are
+// collected and merged at the (single) exit target. Returns the state at the exit target.
+func (x *Exec) runLoop(st *State, fn *ssa.Function, l *Loop, from, stop *ssa.BasicBlock, rets *[]retRec, depth int) (*State, *ssa.BasicBlock) {
+	lb := &loopBound{fn: fn, head: l.Head, blocks: l.Blocks, frames: len(st.Frames)}
+	x.bounds = append(x.bounds, lb)
+	defer func() { x.bounds = x.bounds[:len(x.bounds)-1] }()
+	cur, curFrom := st, from
+	var exits []loopArrival
+	for iter := 0; ; iter++ {
+		if iter > 2_000_000 {
+			x.fail("%s: loop %d does not terminate while unwinding", fnName(fn), l.N)
+		}
+		lb.first = true
+		lb.arrivals = nil
+		x.runRegion(cur, l.Head, curFrom, nil, rets, depth)
+		var backs []loopArrival
+		for _, a := range lb.arrivals {
+			if a.target == l.Head {
+				backs = append(backs, a)
+			} else {
+				exits = append(exits, a)
+			}
+		}
+		if len(backs) == 0 {
+			break
+		}
+		cur = x.mergeArrivals(backs)
+		curFrom = nil
+		if len(backs) > 1 && iter >= 8 && iter%8 == 0 && x.implied(cur, term.False) {
+			break // only infeasible paths are still iterating
+		}
+	}
+	if len(exits) == 0 {
+		return nil, nil
+	}
+	// exits into blocks that only return / panic are finished right away; the remaining exits
+	// must agree on one continuation block
+	groups := map[*ssa.BasicBlock][]loopArrival{}
+	var order []*ssa.BasicBlock
+	for _, e := range exits {
+		if _, ok := groups[e.target]; !ok {
+			order = append(order, e.target)
+		}
+		groups[e.target] = append(groups[e.target], e)
+	}
+	var target *ssa.BasicBlock
+	for _, t := range order {
+		if len(t.Succs) == 0 {
+			x.bounds = x.bounds[:len(x.bounds)-1]
+			if x.SplitLoopExits {
+				for _, a := range groups[t] {
+					if a.from != nil {
+						x.prePhi(a.st, a.target, a.from)
+					}
+					x.runRegion(a.st, t, nil, nil, rets, depth)
+				}
+			} else {
+				m := x.mergeArrivals(groups[t])
+				x.runRegion(m, t, nil, nil, rets, depth)
+			}
+			x.bounds = append(x.bounds, lb)
+			continue
+		}
+		if target != nil {
+			// several continuation blocks (e.g. a `break` arm with its own statements): carry each
+			// group to the point where all ways out of the loop meet again
+			join := x.P.funcInfo(fn).ipdom[l.Head]
+			if join == nil {
+				x.fail("%s: loop %d is left towards several different blocks that never re-join (outside the supported subset)", fnName(fn), l.N)
+			}
+			x.bounds = x.bounds[:len(x.bounds)-1]
+			var joined []loopArrival
+			for _, t2 := range order {
+				if len(t2.Succs) == 0 {
+					continue
+				}
+				m := x.mergeArrivals(groups[t2])
+				var r *State
+				if t2 == join {
+					r = m
+				} else {
+					r = x.runRegion(m, t2, nil, join, rets, depth)
+				}
+				if r != nil {
+					joined = append(joined, loopArrival{r, nil, join})
+				}
+			}
+			x.bounds = append(x.bounds, lb)
+			if len(joined) == 0 {
+				return nil, nil
+			}
+			return x.mergeArrivals(joined), join
+		}
+		target = t
+	}
+	if target == nil {
+		return nil, nil
+	}
+	if x.SplitLoopExits && stop == nil && len(x.bounds) == 1 && len(groups[target]) > 1 {
+		// path splitting requested by the driver: every way of leaving the loop is carried on
+		// separately (no join is pending, so nothing has to be re-merged)
+		x.bounds = x.bounds[:0]
+		for _, a := range groups[target] {
+			if a.from != nil {
+				x.prePhi(a.st, a.target, a.from)
+			}
+			x.runRegion(a.st, target, nil, nil, rets, depth)
+		}
+		x.bounds = append(x.bounds, lb)
+		return nil, nil
+	}
+	return x.mergeArrivals(groups[target]), target
+}
+
+// mergeArrivals evaluates the target's phis per arrival and merges the states.
+func (x *Exec) mergeArrivals(as []loopArrival) *State {
+	for _, a := range as {
+		if a.from != nil {
+			x.prePhi(a.st, a.target, a.from)
+		}
+	}
+	out := as[len(as)-1].st
+	if len(as) == 1 {
+		return out
+	}
+	pcs := []*T{out.PC}
+	for i := len(as) - 2; i >= 0; i-- {
+		a := as[i].st
+		out = x.mergeStates(a.PC, a, out, len(a.Frames))
+		pcs = append(pcs, a.PC)
+	}
+	out.PC = term.Or(pcs...)
+	out.Died = true
+	return out
 }
